@@ -267,7 +267,7 @@ def main(argv=None):
         json.dump(ledger, open(ledger_path, 'w'), indent=1, sort_keys=True)
 
     # vacuity of the whole check
-    if n_obl == 0:
+    if n_obl == 0 and not undecided:
         crashes.append((prop, 'vacuity: zero obligations generated'))
 
     for k in known_hit:
